@@ -993,7 +993,7 @@ fn run_case(case: &Value, eng: &Engine) -> Value {
             }
             // C08, second clause: disabling anchors does not change which strings the body matches in full —
             // language of this output against the output of the same build with both anchors in place
-            if want_lang && (f.no_start || f.no_end) {
+            if case["lang_anchor"].as_bool().unwrap_or(false) && (f.no_start || f.no_end) {
                 let mut g = f.clone();
                 g.no_start = false;
                 g.no_end = false;
